@@ -173,6 +173,7 @@ func c04OwnViewUnit(unit string, env *fw.Env) *fw.Result {
 	res := fw.NewResult()
 	var shard, nsh int
 	fmt.Sscanf(unit, "ownview/%d/%d", &shard, &nsh)
+	engRangeView = true
 	maxLen := 3
 	if env.Thorough {
 		maxLen = 4
